@@ -99,6 +99,7 @@ def choose_scenarios(seed, tier):
     mechs = sorted(c14gen.MECHS)
     accs = sorted(c14gen.ACCS)
     rnd = vlib.lcg(seed * 7919 + 13)
+    specials = [("special", n, "-", e) for n in sorted(c14gen.load_specials()) for e in ("call", "go")]
     if tier != "quick":
         # mechanism x access x entry on the object itself, plus 6 seed-rotated accesses per mechanism on the child targets
         allsc = [(m, a, "self", e) for e in ("call", "go") for m in mechs for a in accs]
@@ -106,10 +107,11 @@ def choose_scenarios(seed, tier):
         for k, m in enumerate(mechs):
             for j in range(6):
                 allsc.append((m, accs[(off + k * 5 + j * 7) % len(accs)], ("child", "latechild")[j % 2], ("call", "go")[(k + j) % 2]))
+        allsc = specials + allsc
         n = 420
         return [allsc[i:i + n] for i in range(0, len(allsc), n)]
-    sel = []
-    seen = set()
+    sel = list(specials)
+    seen = set(specials)
 
     def add(*sc):
         if sc not in seen:
@@ -150,7 +152,8 @@ def violation_key(acc, desc, role):
     if role in ("GG", "GACC"):
         # the raced memory is a package-level int: independent of the sharing mechanism
         return "race-local:global-var:%s:%s" % (desc[3] if len(desc) > 3 else "call", role)
-    return "race-local:%s:%s:mech=%s:kind=%s" % (desc[3] if len(desc) > 3 else "call", role, desc[0], "+".join(kinds))
+    mech = desc[0] if desc[0] != "special" else "special-" + desc[1]
+    return "race-local:%s:%s:mech=%s:kind=%s" % (desc[3] if len(desc) > 3 else "call", role, mech, "+".join(kinds))
 
 
 def run(chk):
